@@ -60,7 +60,7 @@ theorem node_sf_le (ok : LatticeOK G L) {v : Nat} (hv : v < L.n) : (L.node v).sf
     have := h.2 hr
     by_cases hs : v = L.start
     · have := this.1 hs; omega
-    · have := this.2 hs; omega
+    · have := this.2.1 hs; omega
 
 theorem rank_le (ok : LatticeOK G L) {v : Nat} (hv : v < L.n) : L.rank v ≤ L.nframes + 1 := by
   unfold Lat.rank
@@ -88,7 +88,7 @@ theorem rank_lt (ok : LatticeOK G L) {l : Link} (hl : l ∈ L.links) : L.rank l.
     | false =>
       have h1 := ht.2.1 hs hdr
       have h2 := (ok.nodeTimes l.dst hep.2).2 hdr
-      have h3 := h2.2 hse.1
+      have h3 := h2.2.1 hse.1
       have h4 := (ok.nodeTimes l.src hep.1).1 hs
       omega
 
